@@ -18,8 +18,58 @@ EXPLANATION = (
     "matrix is built from. C14.c: the clip itself selects rows only by comparing the Date column with both window bounds "
     "(never by index label / position). C14.d (write-once summary): the store of a season's summary row is reachable only through the True edge of a "
     "`harvest_flag is False` test (edge removal on the CFG) - otherwise days simulated after the harvest, which exist only when the "
-    "run is extended, rewrite a completed season's row. C14.f: = C15.c (whole-row operations on the weather frame name their columns, incl. the model's weather setter): a dropped in-window day shifts every later day onto later weather. C14.e: same rule as C08.e - an aggregate over all seasons of the window makes completed seasons depend on the end date (known finding F19). C14.g: the yearly CO2 series is interpolated from the whole table the user supplied - nothing derived from the clock selects its rows - so a completed season's CO2 forcing does not depend on the end date. NOT decided: that extending the end date leaves completed seasons of thermal-time crops "
+    "run is extended, rewrite a completed season's row. C14.f: = C15.c (whole-row operations on the weather frame name their columns, incl. the model's weather setter): a dropped in-window day shifts every later day onto later weather. C14.e: same rule as C08.e - an aggregate over all seasons of the window makes completed seasons depend on the end date (known finding F19). C14.g: the yearly CO2 series is interpolated from the whole table the user supplied - nothing derived from the clock selects its rows - so a completed season's CO2 forcing does not depend on the end date. C14.h: the month/day template of the latest harvest date is not computed from the end date. NOT decided: that extending the end date leaves completed seasons of thermal-time crops "
     "unchanged (depends on cumulative sums; SwitchGDD averages over all seasons by design).")
+
+
+def harvest_template(chk, prog):
+    """C14.h: the latest harvest date is kept as one month/day template for all seasons; a store to `crop.harvest_date` must not be computed
+    from the end date of the simulation (backward slice through the locals of read_model_parameters, results of repository callees opaque):
+    otherwise every completed season is harvested on a day that moves with the end date."""
+    from ..rdef import flow_of, ENTRY
+    fi = prog.find_func("read_model_parameters")
+    chk.fn(fi.key)
+    where = f"{fi.module}:{fi.qualname}"
+    flow = flow_of(fi)
+    cfg = flow.cfg
+    def is_end(x):
+        return (isinstance(x, ast.Attribute) and x.attr in ("simulation_end_date", "sim_end_time")) or (isinstance(x, ast.Name) and False)
+    def tainted(e, at, seen):
+        for x in ast.walk(e):
+            if isinstance(x, ast.Call) and prog.resolve_call(fi, x) is not None and hasattr(prog.resolve_call(fi, x), "key"):
+                continue
+            if is_end(x):
+                return norm(x)
+        # names: follow local definitions (not through repository calls)
+        for x in ast.walk(e):
+            if isinstance(x, ast.Name):
+                for d in flow.defs_reaching(x.id, at):
+                    if d == ENTRY or (x.id, d) in seen:
+                        continue
+                    seen.add((x.id, d))
+                    a = cfg.nodes[d].ast
+                    v = a.value if isinstance(a, (ast.Assign, ast.AugAssign)) else None
+                    if v is None:
+                        continue
+                    if isinstance(v, ast.Call) and hasattr(prog.resolve_call(fi, v), "key"):
+                        continue
+                    r = tainted(v, d, seen)
+                    if r:
+                        return f"{x.id} <- {r}"
+        return None
+    n = 0
+    for a in walk_no_nested(fi.node):
+        if isinstance(a, ast.Assign) and isinstance(a.targets[0], ast.Attribute) and a.targets[0].attr == "harvest_date":
+            n += 1
+            nid = flow.stmt_node.get(id(a))
+            construct = norm(a)[:90]
+            r = tainted(a.value, nid, set()) if nid is not None else None
+            if r:
+                chk.violation("C14.h", where, construct, f"the month/day template of the latest harvest date is computed from the end date of the simulation ({r}): seasons "
+                              "already completed are harvested on another day when the end date is extended", loc=fi.loc(a))
+            else:
+                chk.ok("C14.h", where, construct, "independent of the end date (slice through the locals)")
+    chk.floor("C14.h", n, 1, "stores to crop.harvest_date in read_model_parameters")
 
 
 def run(chk, prog, tier):
@@ -134,6 +184,7 @@ def run(chk, prog, tier):
     season_aggregate_calendar(chk, prog, "C14.e")
     from ._siblings import co2_series_rules
     co2_series_rules(chk, prog, rule_interp="C14.g")
+    harvest_template(chk, prog)
     # ---- C14.f: no whole-row operation on the weather frame may drop days (every later day would run on a later day's weather: look-ahead)
     from ._weather import whole_row_ops
     whole_row_ops(chk, prog, "C14.f")
